@@ -62,7 +62,7 @@ func (w *c12World) liveCount() int {
 func (w *c12World) apply(op c12Op) {
 	switch op.Kind {
 	case "create":
-		vsync.PoolChoice = func(int) int { return op.B }
+		vsync.PoolChoice = func(*vsync.Pool, int) int { return op.B }
 		data := fmt.Sprintf("n%d", len(w.m))
 		var n *idr.Node
 		switch op.Format {
